@@ -120,22 +120,24 @@ theorem hotLe_bulkOne (s : TState D) (id : Nat) : HotLe s (bulkOne digest s id).
     · exact HotLe.refl s
   · exact HotLe.refl s
 
-theorem hotLe_bulkFold (ids : List Nat) (s0 : TState D)
-    (acc : TState D × List (Option (Vec × Meta × Tier))) (h : HotLe s0 acc.1) :
-    HotLe s0 (ids.foldl (fun (acc : TState D × List (Option (Vec × Meta × Tier))) id =>
-      let (st, r) := bulkOne digest acc.1 id
-      (st, acc.2 ++ [r])) acc).1 := by
-  induction ids generalizing acc with
-  | nil => exact h
+theorem hotLe_bulkPass (ids : List Nat) (s : TState D) : HotLe s (bulkPass digest s ids).1 := by
+  induction ids generalizing s with
+  | nil => exact HotLe.refl s
   | cons i rest ih =>
-    rw [List.foldl_cons]
-    apply ih
-    exact h.trans (hotLe_bulkOne digest acc.1 i)
+    unfold bulkPass
+    have h1 := hotLe_bulkOne digest s i
+    generalize bulkOne digest s i = r at h1 ⊢
+    obtain ⟨s1, o⟩ := r
+    simp only at h1 ⊢
+    have h2 := ih s1
+    generalize bulkPass digest s1 rest = r2 at h2 ⊢
+    obtain ⟨s2, rs⟩ := r2
+    exact h1.trans h2
 
 theorem hotLe_bulkQuery (s : TState D) (ids : List Nat) : HotLe s (bulkQuery digest s ids).1 := by
   unfold bulkQuery
-  have := hotLe_bulkFold digest ids s (s, []) (HotLe.refl s)
-  generalize (ids.foldl _ (s, [])) = r at this ⊢
+  have := hotLe_bulkPass digest ids s
+  generalize bulkPass digest s ids = r at this ⊢
   obtain ⟨s1, fp⟩ := r
   exact this
 
